@@ -441,6 +441,11 @@ func (pb *parserBatch) runParsesB(ctx *Ctx, res *Result, trace bool, budget int)
 			out[rs[i].Parser] = rs[i].Parses
 			meta[rs[i].Parser] = &rs[i]
 			res.Count("parses", len(rs[i].Parses))
+			steps := 0
+			for k := range rs[i].Parses {
+				steps += rs[i].Parses[k].Steps
+			}
+			res.Count("parser_steps(simulated time of generated parsers)", steps)
 			res.LogHash = hkey(res.LogHash, jsonStr(rs[i]))
 		}
 	}
